@@ -244,6 +244,7 @@ class SimFS:
             self._enotdir(p, path)
             if p not in self.files:
                 raise FileNotFoundError(errno.ENOENT, "No such file or directory", path)
+            self._fault("open", p)
             fd = self.next_fd
             self.next_fd += 1
             self.fds[fd] = p
